@@ -95,9 +95,9 @@ def classes(case):
 
 
 @st.composite
-def _cases(draw, deep=False):
+def _cases(draw, deep=False, large=False):
     spec = draw(models.model_specs(open_patterns=True))
-    j = draw(trees.wf_trees(spec, max_nodes=14 if deep else 8, deep=deep, aligned=draw(st.booleans())))
+    j = draw(trees.wf_trees(spec, max_nodes=40 if large else (14 if deep else 8), deep=deep, aligned=draw(st.booleans()), wide=14 if large else 3))
     return {'tree': j, 'model': spec, 'strip': draw(st.integers(0, 4)) == 0}
 
 
@@ -123,4 +123,5 @@ def stages(tier):
              'concept in {absent,x}; default model; decoded and marker-stripped'),
         Hyp('random', _cases, 5000, 200000),
         Hyp('random-deep', lambda: _cases(deep=True), 1000, 50000),
+        Hyp('random-large', lambda: _cases(large=True), 300, 15000),
     ]
